@@ -150,7 +150,8 @@ def load_matchfile(
     with open(filename) as f:
         raw_lines = f.read().splitlines()
 
-    version = get_version(raw_lines[0])
+    # empty lines are skipped: the version is stated in the first line that is not empty
+    version = get_version(next((line for line in raw_lines if line != ""), raw_lines[0]))
 
     from_matchline_methods = FROM_MATCHLINE_METHODSV1
     if version < Version(1, 0, 0):
